@@ -28,6 +28,11 @@ func isBool(v value) bool {
 	return ok
 }
 
+func isBlock(v value) bool {
+	_, ok := v.(Block)
+	return ok
+}
+
 func isFalsey(v value) bool {
 	switch x := v.(type) {
 	case bool:
